@@ -391,3 +391,304 @@ var boolArityWitnesses = []Witness{
 	{Name: "benign-boolarity-nested-ifs", Benign: true, Edits: []Edit{
 		{File: "parser.go", Old: "	if isBoolOpNode(n) && len(children) < 2 {\n		return nil, p.paramsCountErr(2, len(children), car)\n	}", New: "	if isBoolOpNode(n) {\n		if len(children) <= 1 {\n			return nil, p.paramsCountErr(2, len(children), car)\n		}\n	}"}}},
 }
+
+// ---- R-COSTALL (C16) ----------------------------------------------------------------------
+
+// ruleCostAll: every operand of a node contributes to the node's estimated cost.
+func ruleCostAll(w *World, r *Report) {
+	const rule = "R-COSTALL"
+	r.Rule(rule, "calculateNodeCosts: for an `if` node exactly the operand children (condition, then, else — the indices calAndSetNodes emits as branches, not the appended `fi` marker) reach the node's cost; for every other node a loop over all children adds each child's cost", 2)
+	fn := w.MustFn(r, rule, "calculateNodeCosts")
+	cn := w.MustFn(r, rule, "calAndSetNodes")
+	if fn == nil || cn == nil {
+		return
+	}
+	name := w.Name(fn)
+	// children indices of an `if` in calAndSetNodes: all constant indices of root.children; the marker is
+	// the one whose node's scIdx is written
+	childIdx := func(f *ssa.Function, v ssa.Value) (int64, bool) {
+		addr, ok := isLoad(v)
+		if !ok {
+			return 0, false
+		}
+		ia, ok := addr.(*ssa.IndexAddr)
+		if !ok {
+			return 0, false
+		}
+		if _, okf := loadOfField(ia.X, "astNode", "children"); !okf {
+			return 0, false
+		}
+		return constInt(ia.Index)
+	}
+	all := map[int64]bool{}
+	marker := map[int64]bool{}
+	EachInstr(cn, func(in ssa.Instruction) {
+		if u, ok := in.(*ssa.UnOp); ok {
+			if k, ok := childIdx(cn, u); ok {
+				all[k] = true
+			}
+		}
+		if st, ok := in.(*ssa.Store); ok {
+			if tn, fld, base, okf := fieldOf(st.Addr); okf && tn == "node" && fld == "scIdx" {
+				if nb, okn := loadOfField(base, "astNode", "node"); okn {
+					if k, ok := childIdx(cn, nb); ok {
+						marker[k] = true
+					}
+				}
+			}
+		}
+	})
+	want := map[int64]bool{}
+	for k := range all {
+		if !marker[k] {
+			want[k] = true
+		}
+	}
+	if len(want) < 2 || len(marker) != 1 {
+		r.Unresolved(rule, fmt.Sprintf("branch / marker indices of an `if` in calAndSetNodes not recovered (all=%v marker=%v)", sortedInts(all), sortedInts(marker)))
+		return
+	}
+	// in calculateNodeCosts: constant-index loads children[k].cost
+	got := map[int64]bool{}
+	EachInstr(fn, func(in ssa.Instruction) {
+		u, ok := in.(*ssa.UnOp)
+		if !ok {
+			return
+		}
+		base, okf := loadOfField(u, "astNode", "cost")
+		if !okf {
+			return
+		}
+		addr, okl := isLoad(base)
+		if !okl {
+			return
+		}
+		ia, oki := addr.(*ssa.IndexAddr)
+		if !oki {
+			return
+		}
+		if k, okc := constInt(ia.Index); okc {
+			got[k] = true
+		}
+	})
+	same := len(got) == len(want)
+	for k := range want {
+		if !got[k] {
+			same = false
+		}
+	}
+	r.Check(same, rule, w.Pos(fn.Pos()), name, fmt.Sprintf("`if` cost reads children %v", sortedInts(got)), fmt.Sprintf("exactly the operand children %v (calAndSetNodes emits them as condition and branches; child %v is the `fi` marker)", sortedInts(want), sortedInts(marker)), "the cost of an `if` ignores one of its branches (or counts the marker instead): a name mentioned only there cannot push the operand behind its siblings however expensive it is")
+	// the general arm: a range loop over children accumulating child.cost for every element
+	loopOK := false
+	EachInstr(fn, func(in ssa.Instruction) {
+		u, ok := in.(*ssa.UnOp)
+		if !ok {
+			return
+		}
+		base, okf := loadOfField(u, "astNode", "cost")
+		if !okf {
+			return
+		}
+		addr, okl := isLoad(base)
+		if !okl {
+			return
+		}
+		ia, oki := addr.(*ssa.IndexAddr)
+		if !oki {
+			return
+		}
+		hdr, isRange := rangeIndexHeader(ia.Index, ia.X)
+		if !isRange {
+			return
+		}
+		// the loaded cost is added into a loop-carried accumulator
+		for _, ref := range referrers(u) {
+			if bo, ok := ref.(*ssa.BinOp); ok && bo.Op.String() == "+" {
+				if loopVisitsAll(hdr, bo.Block()) {
+					loopOK = true
+				}
+			}
+		}
+	})
+	r.Check(loopOK, rule, w.Pos(fn.Pos()), name, "children cost of an ordinary node", "a loop over all children adds child.cost for every element", "not every child's cost reaches the parent")
+}
+
+// ---- R-OPNAMES (C15) ------------------------------------------------------------------------
+
+// ruleOpNames: the leaf parser that makes undefined variables and the operator-node builder use one resolver.
+func ruleOpNames(w *World, r *Report) {
+	const rule = "R-OPNAMES"
+	r.Rule(rule, "a name is read as an undefined variable only when the resolver that buildOperatorNode uses ((*parser).getOperator: built-in table, then Config.OperatorMap) does not know it; the infix parser tries leaves before operators, so a narrower test turns calls of registered operators into variables", 1)
+	pu := w.MustFn(r, rule, "(*parser).parseUnknownVariable")
+	bo := w.MustFn(r, rule, "(*parser).buildOperatorNode")
+	if pu == nil || bo == nil {
+		return
+	}
+	// the resolver: the static callee whose result #0 is stored into node.operator in buildOperatorNode
+	var resolver *ssa.Function
+	EachInstr(bo, func(in ssa.Instruction) {
+		st, ok := in.(*ssa.Store)
+		if !ok {
+			return
+		}
+		if tn, fld, _, okf := fieldOf(st.Addr); okf && tn == "node" && fld == "operator" {
+			if c := resultOf(st.Val); c != nil && c.Call.StaticCallee() != nil {
+				resolver = c.Call.StaticCallee()
+			}
+		}
+	})
+	if resolver == nil {
+		r.Unresolved(rule, "the operator resolver used by buildOperatorNode was not found")
+		return
+	}
+	k := loadNodeKinds(w)
+	n := 0
+	EachInstr(pu, func(in ssa.Instruction) {
+		al, ok := in.(*ssa.Alloc)
+		if !ok || typeNameOf(deref(al.Type())) != "node" {
+			return
+		}
+		if kc, okk := literalKind(al); !okk || kc != k.variable {
+			return
+		}
+		n++
+		gated := false
+		for _, fc := range factsAt(al.Block()) {
+			ex, ok := fc.Cond.(*ssa.Extract)
+			if !ok || ex.Index != 1 || fc.Truth {
+				continue
+			}
+			if c, ok := ex.Tuple.(*ssa.Call); ok && c.Call.StaticCallee() == resolver {
+				gated = true
+			}
+		}
+		r.Check(gated, rule, w.InstrPos(al), w.Name(pu), "undefined-variable node", "built only when "+w.Name(resolver)+" does not know the name", "the undefined-variable parser tests operator names with something else than the node builder's resolver: a registered operator's name is read as a variable (infix `clamp(a, 0, 10)` no longer parses, or parses to another tree)")
+	})
+	if n == 0 {
+		r.Unresolved(rule, "no variable node literal in parseUnknownVariable")
+	}
+}
+
+// ---- R-CACHEDGET (C04, C05) -------------------------------------------------------------------
+
+// fetcherTerm renders conditions of a fetcher method over receiver S and parameters K0, K1.
+func fetcherTermCtx(fn *ssa.Function) *termCtx {
+	var tc *termCtx
+	leaf := func(v ssa.Value) string {
+		for i, p := range fn.Params {
+			if v == ssa.Value(p) {
+				if i == 0 {
+					return "S"
+				}
+				return fmt.Sprintf("K%d", i-1)
+			}
+		}
+		if c, ok := v.(*ssa.Call); ok {
+			if b, okb := c.Call.Value.(*ssa.Builtin); okb && b.Name() == "len" && len(c.Call.Args) == 1 {
+				return "len(" + tc.term(c.Call.Args[0]) + ")"
+			}
+		}
+		if ex, ok := v.(*ssa.Extract); ok && ex.Index == 1 {
+			if lk, ok := ex.Tuple.(*ssa.Lookup); ok && lk.CommaOk {
+				return "has(" + tc.term(lk.X) + "," + tc.term(lk.Index) + ")"
+			}
+		}
+		return ""
+	}
+	tc = &termCtx{leaf: leaf}
+	return tc
+}
+
+func ruleCachedGet(w *World, r *Report) {
+	const rule = "R-CACHEDGET"
+	r.Rule(rule, "for every VariableFetcher of the package: whenever Cached(key, name) answers true, Get(key, name) does not fail — each condition under which Get returns an error is excluded (its exact negation holds) wherever Cached returns true; TryEval calls Get only after Cached == true and must not get a fetcher error for an unavailable variable", 2)
+	n := 0
+	for _, tn := range []string{"SliceVarFetcher", "MapVarFetcher"} {
+		get := w.Fn("(" + tn + ").Get")
+		cached := w.Fn("(" + tn + ").Cached")
+		if get == nil || cached == nil {
+			continue
+		}
+		n++
+		gtc := fetcherTermCtx(get)
+		var errConds []string
+		for _, ret := range allReturns(get) {
+			if nonNil, _ := isErrorReturn(ret); !nonNil {
+				continue
+			}
+			for _, fc := range factsAt(ret.Block()) {
+				t := gtc.term(fc.Cond)
+				if !fc.Truth {
+					t = negateTerm(t)
+				}
+				errConds = append(errConds, t)
+			}
+		}
+		ctc := fetcherTermCtx(cached)
+		good := len(errConds) > 0
+		why := ""
+		for _, ret := range allReturns(cached) {
+			// conditions known when true is returned
+			var have []string
+			for _, fc := range factsAt(ret.Block()) {
+				t := ctc.term(fc.Cond)
+				if !fc.Truth {
+					t = negateTerm(t)
+				}
+				have = append(have, t)
+			}
+			if b, ok := constBool(ret.Results[0]); ok {
+				if !b {
+					continue
+				}
+			} else {
+				t := ctc.term(ret.Results[0])
+				if parts, ok := splitTop(t, "&&"); ok {
+					have = append(have, parts...)
+				} else {
+					have = append(have, t)
+				}
+			}
+			for _, e := range errConds {
+				need := negateTerm(e)
+				found := false
+				for _, h := range have {
+					if h == need {
+						found = true
+					}
+				}
+				if !found {
+					good = false
+					why = fmt.Sprintf("Get fails under %s; Cached answers true knowing only %v", e, have)
+				}
+			}
+		}
+		r.Check(good, rule, w.Pos(cached.Pos()), "("+tn+").Cached", fmt.Sprintf("Cached true excludes every error condition of Get %v", errConds), "a variable reported as available can be fetched", "Cached can answer true for a key Get rejects: TryEval turns an unavailable variable into a fetcher error instead of DNE ("+why+")")
+	}
+	if n == 0 {
+		r.Unresolved(rule, "no fetcher with Get and Cached found")
+	}
+}
+
+var wave4Witnesses = []Witness{
+	{Name: "costall-if-cost-reads-marker-instead-of-else", Rule: "R-COSTALL", Edits: []Edit{
+		{File: "compiler.go", Old: "math.Max(children[1].cost, children[2].cost)", New: "math.Max(children[1].cost, children[3].cost)"}}},
+	{Name: "costall-ordinary-node-skips-first-child", Rule: "R-COSTALL", Edits: []Edit{
+		{File: "compiler.go", Old: "		for _, child := range children {\n			childrenCost += child.cost\n		}", New: "		for i, child := range children {\n			if i == 0 && len(children) > 3 {\n				continue\n			}\n			childrenCost += child.cost\n		}"}}},
+	{Name: "benign-costall-max-arguments-swapped", Benign: true, Edits: []Edit{
+		{File: "compiler.go", Old: "math.Max(children[1].cost, children[2].cost)", New: "math.Max(children[2].cost, children[1].cost)"}}},
+}
+
+var wave4WitnessesC15 = []Witness{
+	{Name: "opnames-unknown-variable-tests-builtin-table-only", Rule: "R-OPNAMES", Edits: []Edit{
+		{File: "parser.go", Old: "	_, exist := p.getOperator(t.val)\n	if exist {\n		return nil, nil\n	}", New: "	if _, exist := builtinOperators[t.val]; exist {\n		return nil, nil\n	}"}}},
+}
+
+var wave4WitnessesC05 = []Witness{
+	{Name: "cachedget-slice-cached-off-by-one", Rule: "R-CACHEDGET", Edits: []Edit{
+		{File: "variable.go", Old: "func (s SliceVarFetcher) Cached(key VariableKey, _ string) bool {\n	if int(key) >= len(s) {\n		return false\n	}\n	return true\n}", New: "func (s SliceVarFetcher) Cached(key VariableKey, _ string) bool {\n	return 0 <= int(key) && int(key) <= len(s)\n}"}}},
+	{Name: "benign-cachedget-single-expression", Benign: true, Edits: []Edit{
+		{File: "variable.go", Old: "func (s SliceVarFetcher) Cached(key VariableKey, _ string) bool {\n	if int(key) >= len(s) {\n		return false\n	}\n	return true\n}", New: "func (s SliceVarFetcher) Cached(key VariableKey, _ string) bool {\n	return len(s) > int(key)\n}"}}},
+	{Name: "cachedget-map-cached-always-true", Rule: "R-CACHEDGET", Edits: []Edit{
+		{File: "variable.go", Old: "func (s MapVarFetcher) Cached(_ VariableKey, key string) bool {\n	_, exist := s[key]\n	return exist\n}", New: "func (s MapVarFetcher) Cached(_ VariableKey, key string) bool {\n	_, exist := s[key]\n	return exist || len(s) == 0\n}"}}},
+}
